@@ -33,6 +33,10 @@ CHECKS = {
    text="exhaustive view enumeration: for every cluster size 1..5, every dead set and every live local node (129 views, in two id families) a real InnerNodeManage actor is driven to that view by the genuine 15 s liveness rule (peers kept alive or starved); for service keys covering every hash residue mod 60 the owner range (QueryOwnerRange / is_range), the NamingActor's range and NodeManage::route_addr must agree: exactly one owner, route == owner",
    note="exhaustive for (n<=5, dead set, local id, residue mod 60); transient windows between a status change and the next tick not judged",
    technique="exhaustive runtime enumeration of cluster views on the real actors + agreement oracle"),
+ "C15": dict(level="exploration", design="DESIGN.md 3/C15",
+   text="convergence monitor on real 3-process clusters: HTTP writers (register / update / deregister / beat through random nodes) and gRPC writers (connections attached to random nodes, close + re-attach) on 7 services in 2 namespaces while a seeded nemesis SIGSTOPs nodes, SIGKILLs the node holding gRPC connections (short and long outage) and a node joins late; at checkpoints all clients stop and every live node is polled until, twice in a row, all nodes return the same (ip, port, healthy, enabled, weight) sets that also equal a reference derived from the acknowledged operations (every real-time-respecting linearisation with the single-node rules), bound 60 s; gRPC ServiceQuery view compared with the HTTP view per node",
+   note="operations racing with a membership change or closer together than the 500 ms sync tick are racing writers (either outcome accepted, convergence still demanded); SIGSTOP instead of network partitions; bounded-progress restatement of 'eventually'",
+   technique="runtime monitoring of recorded client histories against a reference model at quiescent checkpoints, under process-level fault injection"),
  "C16": dict(level="exploration", design="DESIGN.md 3/C16",
    text="runtime black-box monitor on the real binary with RNACOS_ENABLE_OPEN_API_AUTH=true: the registered route table is discovered by observation, path spellings (case, slashes, dot segments, percent-encoding of prefix and inner segments, %2F, ;x=y, absolute form) that still reach a handler are kept, then every (route, method, spelling) x token carrier x token value {absent, empty, garbage, expired, other server's} must be answered 403 with the data fingerprint of the target unchanged, positive controls with a valid token must work; same for every gRPC data type (vh grpc-client) and the cluster-internal types with/without the cluster token",
    note="route discovery is literal-based (a route whose path appears nowhere as a string literal would be missed); HTTP/2 and smuggling not tried",
